@@ -251,6 +251,24 @@ func casesC06(g *Gen) []*Case {
 		c.Oracle = expectResults(map[int]func(string) string{0: wantNewOK, 1: wantOK("<t>T</t><m>Hi[1| s]</m>")})
 		cs = append(cs, c)
 	}
+	// the expression form of @insert takes a whole expression: ternaries, comparisons, arithmetic, calls, evaluated with the data of the call
+	{
+		data := gvMap("flag", gvBool(true), "off", gvBool(false), "n", gvInt(3), "name", gvStr("Ann"), "xs", gvList(gvInt(1), gvInt(2)))
+		i := 0
+		for expr, want := range map[string]string{
+			`flag ? "A" : "B"`: "A", `off ? "A" : "B"`: "B", `!flag ? "A" : "B"`: "B", `n > 2 ? n * 2 : 0`: "6", `flag ? (n > 5 ? "x" : "y") : "z"`: "y", `off ? 1 : flag ? 2 : 3`: "2",
+			`n + 1`: "4", `n == 3`: "1", `name + "!"`: "Ann!", `xs[1]`: "2", `name.upper()`: "ANN", `(flag ? 1 : 2)`: "1", `-n`: "-3", `xs.len() > 1 ? "many" : "one"`: "many",
+			`n * 2 + 1`: "7", `n - 1 - 1`: "1", `name.len() == 3 ? name : "?"`: "Ann",
+		} {
+			t := newTree()
+			t.files["tpl/layouts/l.tw"] = `[@reserve("a")|@reserve("b")]`
+			t.files["tpl/p.tw"] = `@use("~l")@insert("a", ` + expr + `)@insert("b", "x")`
+			c := histCase("insert_value_expressions", t, []string{opNew("tpl", ".tw", "", i%2 == 0), opStr("p", data)}, "NewTemplate, String(p); the insert's value is "+expr)
+			c.Oracle = expectResults(map[int]func(string) string{0: wantNewOK, 1: wantOK("[" + want + "|x]")})
+			cs = append(cs, c)
+			i++
+		}
+	}
 	// a tilde that is not the first character of a name is an ordinary character
 	{
 		t := newTree()
@@ -1041,7 +1059,11 @@ func casesC13(g *Gen) []*Case {
 		{"{{ [1, 2][\n5\n] }}", 0, ""},
 		{"{{ 1 +\n\n nosuch }}", 3, "nosuch"},
 		{"@if(true &&\n 1)x@end", 0, ""},
-		{"{{ user.name\n.nosuchfn(\n1) }}", 0, ""},
+		{"{{ user.name\n.nosuchfn(\n1) }}", 2, "nosuchfn"},
+		{"{{ [\n1,\n2\n].lenght() }}", 4, "lenght"},
+		{"{{ user.name\n.upper()\n.nosuch()\n.lower() }}", 3, "nosuch"},
+		{"<p>\n{{ \"a\nb\"\n.nofn() }}", 4, "nofn"},
+		{"{{ 5\n\n.somefunction(\n) }}", 3, "somefunction"},
 		{"@each(k in\n [1,\n 2 3])@end", 3, "expected next token"},
 		{"@dump(1,\n 2\n 3)", 3, "expected next token"},
 		{"@insert(\"a\",\n [1\n 2])", 3, "expected next token"},
